@@ -40,11 +40,12 @@ def section_pairing(ii):
     for st in walk_shallow(ii.node):
         if isinstance(st, ast.Assert):
             cp = compare_parts(st.test)
-            if cp and cp[1] is ast.Eq and isinstance(cp[0], ast.Name) and const(cp[2]) in ('headers', 'data'):
+            cv = const(T.module_value(ii, cp[2])) if cp else None       # the section names may be module-level constants
+            if cp and cp[1] is ast.Eq and isinstance(cp[0], ast.Name) and cv in ('headers', 'data'):
                 n = g.node_of_stmt(st)
                 for d in (rd.at(n[0], cp[0].id) if n else []):
                     if d.kind in ('unpack', 'assign') and isinstance(d.stmt, ast.Assign) and isinstance(d.stmt.value, ast.Name):
-                        role[const(cp[2])] = d.stmt.value.id
+                        role[cv] = d.stmt.value.id
     if set(role) != {'headers', 'data'}:
         return None
     hname, dname = role['headers'], role['data']
@@ -138,10 +139,59 @@ def check(P, R):
     R.ob('C07.a', rd_, zt[0].ast if zt else rd_.node, ok, text=f'{rem} <= 0 -> return b"" before any read', detail='' if ok else
          'an exhausted window can still read from the source')
     sk = P.func(f'{MP}:BytesIOProxy.seek')
-    s_ = src(sk.node)
-    ok = 'min(self._st + pos, self._end)' in s_ and any(compare_parts(n.ast) and src(compare_parts(n.ast)[0]) == 'pos' and compare_parts(n.ast)[1] is ast.Lt
-                                                        and is_const(compare_parts(n.ast)[2], 0) for n in sk.cfg.nodes if n.kind == 'test')
-    R.ob('C07.a', sk, sk.node, ok, text='seek clamps into [start, end]', detail='' if ok else 'seek can move the window position outside [start, end]')
+    sg, srd = sk.cfg, sk.rd
+    pos_stores = [n for n in sg.nodes if n.kind == 'stmt' and isinstance(n.ast, ast.Assign) and any(dotted(t) == 'self._pos' for t in n.ast.targets)]
+
+    def nonneg(e, at):
+        # e >= 0 whenever control is at `at`
+        if isinstance(e, ast.Constant) and isinstance(e.value, int):
+            return e.value >= 0
+        if isinstance(e, ast.Call) and dotted(e.func) == 'max' and any(isinstance(a_, ast.Constant) and isinstance(a_.value, int) and a_.value >= 0 for a_ in e.args):
+            return True
+        if isinstance(e, ast.Name):
+            tests = []
+            for t in sg.nodes:
+                cp_ = compare_parts(t.ast) if t.kind == 'test' and t.ast is not None else None
+                if cp_ and isinstance(cp_[0], ast.Name) and cp_[0].id == e.id and cp_[1] is ast.Lt and is_const(cp_[2], 0):
+                    fix = [m for m in T.succ_by_label(t, 'true') if m.kind == 'stmt' and isinstance(m.ast, ast.Assign) and any(
+                        isinstance(x, ast.Name) and x.id == e.id for x in m.ast.targets) and nonneg(m.ast.value, m)]
+                    if fix:
+                        tests.append(t)
+            defs = srd.at(at, e.id)
+            return bool(defs) and all((d.value is not None and d.kind == 'assign' and not isinstance(d.value, ast.Name) and nonneg(d.value, d.node))
+                                      or (tests and sg.must_pass(d.node, at, tests)) for d in defs)
+        return False
+
+    def clamped(v, at):
+        # v in [self._st, self._end]
+        if isinstance(v, ast.Name):
+            defs = srd.at(at, v.id)
+            return bool(defs) and all(d.value is not None and clamped(d.value, d.node) for d in defs)
+        if isinstance(v, ast.Call) and dotted(v.func) == 'min' and len(v.args) == 2:
+            a_, b_ = v.args
+            if src(b_) == 'self._end':
+                a_, b_ = b_, a_
+            if src(a_) == 'self._end':
+                # lower bound of the other argument
+                if isinstance(b_, ast.BinOp) and isinstance(b_.op, ast.Add):
+                    l_, r_ = b_.left, b_.right
+                    if src(r_) == 'self._st':
+                        l_, r_ = r_, l_
+                    return src(l_) == 'self._st' and nonneg(r_, at)
+                if isinstance(b_, ast.Call) and dotted(b_.func) == 'max' and any(src(x) == 'self._st' for x in b_.args):
+                    return True
+            return False
+        if isinstance(v, ast.Call) and dotted(v.func) == 'max' and len(v.args) == 2 and any(src(x) == 'self._st' for x in v.args):
+            o_ = [x for x in v.args if src(x) != 'self._st'][0]
+            return isinstance(o_, ast.Call) and dotted(o_.func) == 'min' and any(src(x) == 'self._end' for x in o_.args)
+        return False
+    R.require(pos_stores, 'BytesIOProxy.seek: no store of self._pos')
+    for n in pos_stores:
+        ok = clamped(n.ast.value, n)
+        R.ob('C07.a', sk, n.ast, ok, text=f'`{short(n.ast)}`: the new position lies in [start of the part, end of the part]', detail='' if ok else
+             f'`{short(n.ast)}` can move the window position outside [self._st, self._end] (e.g. a seek before the start of the upload is clamped to the start of the whole '
+             f'body, or not at all): read() then returns the preceding delimiter, headers and other parts\' bytes',
+             why='no byte of one part appears in another', key_extra='seek-clamp')
     # the window is built from the data section of the same field
     fr = P.func(f'{MP}:FieldStorage.read')
     wins = [c for c in walk_shallow(fr.node) if isinstance(c, ast.Call) and dotted(c.func) == 'BytesIOProxy']
@@ -349,7 +399,10 @@ def check(P, R):
     else:
         hname_, dname_, ok, where_ = pr
         asserts = [a for a in walk_shallow(ii.node) if isinstance(a, ast.Assert)]
-        ok = ok and any("'headers'" in src(a) for a in asserts) and any("'data'" in src(a) for a in asserts)
+        # (section_pairing found both roles through such asserts already; the names may be module-level constants)
+        def _names(a_):
+            return {const(T.module_value(ii, x)) for x in ast.walk(a_.test) if isinstance(x, (ast.Constant, ast.Name))}
+        ok = ok and any('headers' in _names(a) for a in asserts) and any('data' in _names(a) for a in asserts)
         R.ob('C07.c', ii, where_, ok, text='sections consumed pairwise: headers, then data', detail='' if ok else
              'header and data sections are not paired strictly alternately')
     ys = T.yield_nodes(ii.cfg)
@@ -396,12 +449,16 @@ def check_refuted_window(P, R):
     ed = P.func(f'{MP}:BodyMarkuper._eat_data')
     g = ed.cfg
     er = c06.eat_data_roles(P)
-    loops = [n for n in walk_shallow(ed.node) if isinstance(n, ast.While)]
+    loops = [n for n in walk_shallow(ed.node) if isinstance(n, (ast.While, ast.For)) and any(
+        isinstance(x, ast.Call) and call_attr(x) == 'match_tail' for x in walk_shallow(n))]
+    R.require(loops, '_eat_data: the window scanning loop was not found')
     lp = loops[0]
     mts = [n for n in g.nodes if n.kind == 'stmt' and T._inside(n.ast, lp.body) and any(isinstance(x, ast.Call) and call_attr(x) == 'match_tail' for x in walk_shallow(n.ast))]
     refs = [n for n in g.nodes if n.kind == 'stmt' and isinstance(n.ast, ast.Assign) and is_const(n.ast.value, None)
             and {dotted(t) for t in n.ast.targets} == {er['trest_len'], er['trest']} and T._inside(n.ast, lp.body)]
     adv = [g.node_of_stmt(x)[0] for x in walk_shallow(lp) if isinstance(x, ast.AugAssign) and dotted(x.target) == er['start']]
+    if isinstance(lp, ast.For):
+        adv = [T.loop_head(g, lp)]
     R.require(refs and mts and adv, '_eat_data: window scan anchors not found')
     for rf in refs:
         ok = all(g.must_pass(rf, a, mts) for a in adv)
